@@ -531,7 +531,11 @@ def _c13_cases(tier, seed):
         # (the third: a payload whose only top-level entry is a directory carrying the torrent's own name)
         twins = [{"name": "tw", "files": [["x/data.bin", pl + 7], ["y/data.bin", 2 * pl + 9]]},
                  {"name": "tw", "files": [["x/data.bin", pl + 7], ["y/data.bin", pl + 7]]},
-                 {"name": "album", "files": [["album/a.bin", pl + 7], ["album/sub/b.bin", 2 * pl + 1], ["album/c.txt", 9]]}]
+                 {"name": "album", "files": [["album/a.bin", pl + 7], ["album/sub/b.bin", 2 * pl + 1], ["album/c.txt", 9]]},
+                 # same basename in several directories, every file piece-aligned (all pieces of the later ones are single-file pieces)
+                 {"name": "box", "files": [["d1/track.bin", 2 * pl], ["d2/track.bin", 2 * pl], ["d3/track.bin", pl]]},
+                 # a directory torrent that holds exactly one file
+                 {"name": "solo", "files": [["track.bin", pl + 9]]}]
         for spec in twins:
             for version in (1, 2, 3):
                 for scatter in ("orig", "split"):
@@ -712,6 +716,7 @@ def _c14_cases(tier, seed):
         specs.append({"name": "tw", "files": [["x/data.bin", pl + 7], ["y/data.bin", pl + 7], ["y/z.bin", 3]]})
         # a payload whose only top-level entry is a directory carrying the torrent's own name (first, so that it is not thinned)
         specs.insert(0, {"name": "album", "files": [["album/a.bin", pl + 7], ["album/sub/b.bin", 2 * pl + 1], ["album/c.txt", 9]]})
+        specs.insert(0, {"name": "solo", "files": [["track.bin", pl + 9]]})          # a directory torrent that holds exactly one file
         if tier != "quick":
             S = _sizes(pl)
             for i, (a, b) in enumerate(itertools.product(S[::2], S[1::3])):
@@ -725,8 +730,8 @@ def _c14_cases(tier, seed):
                     for pi, pat in enumerate(C14_PATTERNS):
                         for ri, runs in enumerate(C14_RUNS):
                             n += 1
-                            full = si < 9 and (tier != "quick" or (pi + ci + ri + si + version) % 4 == 0)
-                            thin = si >= 9 and (pi + ci + ri + si + version) % 8 == 0
+                            full = si < 10 and (tier != "quick" or (pi + ci + ri + si + version) % 4 == 0)
+                            thin = si >= 10 and (pi + ci + ri + si + version) % 8 == 0
                             if not (full or thin):
                                 continue
                             cases.append({"prop": "C14", "version": version, "pl": pl, "creator": "real", "torrents": [spec], "seed": seed,
